@@ -62,8 +62,11 @@ def run(ctx):
             ctx.ok("R1", f"{MD} Molecular_Dynamics_Langevin.initialize", "by value: c1 = exp(-dt/(2 damp)), c1^2 + c2^2/(T m^-1 VEL_SCALE^2) = 1 per atom, recomputed from the current "
                    "settings on every initialize(), in place before the parent initialisation, no damping time -> plain initialisation [EA+]")
             ctx.ok("R3", f"{MD} Molecular_Dynamics_Langevin.initialize", "limits follow from the two identities: damp -> infinity gives c1 -> 1, c2 -> 0; T = 0 gives c2 = 0; 0 < c1 < 1")
+            # (a store in a constructor is overwritten by every initialize() -- which the by-value reading has just shown to set both coefficients from the current
+            #  settings -- before any step can read it; stores in step / run functions stay violations)
             ctx.demote = lambda rid, rel, function, message: ("decided by value (interpreted initialize)" if rid in ("R1", "R3") and rel == MD
-                                                              and function.startswith("Molecular_Dynamics_Langevin.initialize") else None)
+                                                              and (function.startswith("Molecular_Dynamics_Langevin.initialize")
+                                                                   or (function.endswith(".__init__") and "redefined outside" in message)) else None)
     try:
         _shape_r1_r3(ctx, repo, md, sym, ini)
     except AnalysisError as e_:
